@@ -763,10 +763,16 @@ class OvldMC(type):
                 v for v in ovlds[1:] if getattr(v, "_extend_super", False)
             ]
             if mixins:
-                o = ovlds[0].copy(mixins=mixins)
-                others = [v for v in values if v is not None and not is_ovld(v)]
-                for other in others:
-                    o.register(other)
+                # The plain functions of the bases are mixed in like the
+                # overloaded ones (they used to be registered on the merged
+                # function itself, where they shadowed a definition of the
+                # same signature marked @extend_super in the class body).
+                others = [
+                    to_ovld(v)
+                    for v in values
+                    if v is not None and not is_ovld(v) and inspect.isfunction(v)
+                ]
+                o = ovlds[0].copy(mixins=[*mixins, *others])
                 o.rename(name)
                 d[name] = o
 
